@@ -264,6 +264,9 @@ def actions_for(op, menu):
     if "sig" in menu:
         for s in (signal.SIGINT, signal.SIGTERM):
             acts += ["sig-before:%d" % s, "sig-after:%d" % s]
+    if "sigb" in menu:
+        for s in (signal.SIGINT, signal.SIGTERM):
+            acts.append("sig-before:%d" % s)
     return acts
 
 
